@@ -252,6 +252,29 @@ def run(world, rep, tier, only=None):
         rep.ob("C17.b", site(rc, "dirty in-use victim is written before reuse"), s not in r4,
                "with the entry dirty and in use, reuse is reachable only through raw_write_blk")
 
+    # ------------------------------------------------------------------ C17.f a bounce-buffered write keeps what it does not overwrite
+    # The bounce path of raw_write_blk() writes whole aligned units.  A unit that the request covers only in part -
+    # because the request is shorter than the unit, or because it starts inside it - is read first, so that the bytes in
+    # front of and behind the request survive.  "Starts inside" is decided by the offset alone: the pre-read is reached
+    # whenever the offset is non-zero, whatever the length.
+    from vlib import rulelib as _rl
+    rwb = ufns["raw_write_blk"]
+    pre = [n for n in calls_to(rwb, "read", "pread", "pread64") if _rl.loop_head(rwb, n) is not None and
+           any("bounce" in T.field_names(a_) for a_ in n.ev["x"].get("a", []) if isinstance(a_, dict))] + \
+        [n for n in rwb.events("S") if _rl.loop_head(rwb, n) is not None and
+         any(cc.get("fn") in ("read", "pread", "pread64") and any("bounce" in T.field_names(a_) for a_ in cc.get("a", []) if isinstance(a_, dict))
+             for cc in T.calls(n.ev.get("rhs") or {}))]
+    rep.floor("C17.f pre-read of the bounce buffer in the write loop", len(pre), 1)
+    for i_, n in enumerate(pre):
+        lits = control_lits(rwb, n) + restrict_lits(rwb, n)
+        by_offset = any(t is True and (T.path(a_) == "offset" or
+                                       (isinstance(T.strip(a_), dict) and T.strip(a_).get("k") == "b" and T.strip(a_).get("o") in ("!=", ">") and
+                                        T.path(T.strip(a_).get("l")) == "offset" and T.const(T.strip(a_).get("r")) == 0))
+                        for t, a_ in lits)
+        rep.ob("C17.f", site(rwb, "a unit entered at a non-zero offset is read before it is written#%d" % i_), by_offset,
+               "the pre-read `%s` is reached whenever `offset` is non-zero: guards %s" %
+               (n.text()[:30], [("" if t else "!") + T.pp(a_)[:30] for t, a_ in lits if t is not None][:4]))
+
     # ------------------------------------------------------------------ C17.e what was read from the device never replaces a cached block
     # unix_read_blk64() drops the cache mutex while it reads; a block may have been written (and cached, dirty)
     # meanwhile.  When the freshly read blocks are saved in the cache, a block that is in the cache by then is the
